@@ -31,7 +31,10 @@ def main():
             text = ("Theorems %s about the Gallina model (coq/Properties/%s.v, no axioms) decide the property for every "
                     "document, path and predicate assignment the statement quantifies over; the model is tied to /repo on every "
                     "run by an observational correspondence (model evaluated in Coq by vm_compute vs the implementation through "
-                    "its public API on generated cases: %s). %s" % (", ".join(obligations), pid, spec['rule'][:300], spec.get('level_text', '')))
+                    "its public API on generated cases: %s). %s%s" % (
+                        ", ".join(obligations), pid, spec['rule'][:300], spec.get('level_text', ''),
+                        (" Clauses of the property that no theorem covers and that rest on the correspondence and the direct "
+                         "oracles only: " + " | ".join(spec['undischarged_note'])) if spec.get('undischarged_note') else ""))
         else:
             text = ("Correspondence between the executable Gallina model and the implementation plus direct oracles on "
                     "generated cases (%s); the theorems for this property are not attached yet, so the claim is exploration "
